@@ -155,16 +155,13 @@ def storeLine (st : StoreRun) (lineNo : Nat) (line : String) : Except String (St
     let i : Int := (get "interval").toInt?.getD 0
     let polls : List Int := ((get "polls").splitOn ",").filterMap String.toInt?
     let tag := s!"line={lineNo} interval={i}ns polls={get "polls"}"
-    let gaps : List Int := Setec.Cadence.gaps 0 polls
     -- the clause itself is `Cadence.cadenceOK`, proved sound and complete for a ticker of constant
     -- period in Proofs/Cadence and for the generated period expression in C11
     let o1 := if Setec.Cadence.cadenceOK i polls then [] else
       [s!"PROPFAIL C11 cadence {tag} background polls must come once per interval within a tenth of it on either side"]
     -- model: the period is the generated expression for some draw in range, the same for every tick
-    let p1 := polls.headD 0
-    let r := p1 - i + Int.tdiv i 10
     let o2 := if !Setec.Facts.gen_pollPeriod_ok then [] else
-      if 0 ≤ r && r < Int.tdiv (2 * i) 10 && Setec.Facts.gen_pollPeriod i (fun _ => r) == p1 && gaps.all (· == p1) then [] else
+      if Setec.Cadence.modelOK Setec.Facts.gen_pollPeriod i polls then [] else
       [s!"DIVERGE cadence_model {tag} no draw in range makes the generated period expression equal to the observed period"]
     .ok ({ st with steps := st.steps + 1, fails := st.fails + o1.length, diverges := st.diverges + o2.length,
                    cover := bump st.cover s!"cadence:{i}" }, o1 ++ o2)
